@@ -1,5 +1,6 @@
 # -*- coding: utf-8 -*-
 
+import copy
 import functools as ft
 from typing import (
     Dict,
@@ -565,14 +566,11 @@ class ASTTypeBuilder:
         name = scalar_type.name
         extensions = self._collect_extensions(name, _ast.ScalarTypeExtension)
 
-        return ScalarType(
-            name,
-            description=scalar_type.description,
-            serialize=scalar_type._serialize,
-            parse=scalar_type._parse,
-            parse_literal=scalar_type._parse_literal,
-            nodes=scalar_type.nodes + extensions,  # type: ignore
-        )
+        # Copy instead of re-creating a plain ScalarType so that subclasses
+        # (and the behaviour they override) survive.
+        extended = copy.copy(scalar_type)
+        extended.nodes = scalar_type.nodes + extensions  # type: ignore
+        return extended
 
     def _extend_argument(self, argument: Argument) -> Argument:
         # Same as when building: the type is extended eagerly and an output
